@@ -42,7 +42,7 @@ CHECKS = {
  "C14": dict(
   engine="inputs/load",
   category="exploration",
-  text="Every first build statement with 1..3 outputs over six spellings of three locations at every explicit/implicit split, alone and followed by every second statement with 1..2 outputs (same file, included file, or subninja'd before it) and a third statement, is loaded; the reference loader says whether two statements produce one location (then the error must cite both statement locations) or not (then the graph must have unique outputs, a consistent explicit count, and a warning exactly when an output repeats). Exhaustive within the bound.",
+  text="Every first build statement with 1..3 outputs over six spellings of three locations at every explicit/implicit split, alone and followed by every second statement with 1..2 outputs (same file, included file, or subninja'd before it) and a third statement, is loaded; the reference loader says whether two statements produce one location (then the error must cite both statement locations) or not (then the graph must have unique outputs, a consistent explicit count, and a warning exactly when an output repeats); self-referential phony statements count as producers. Exhaustive within the bound. In addition (scheduler engine, family RD) a generator step rewrites the manifest - or only an included fragment - so that an output gets a second producer: the reload must reject it and nothing more may run, under every completion order.",
   design_ref="DESIGN.md §4 C14",
   note="Trusted: refmanifest.rs add_build and refcanon.rs. Stdout of the loader is captured to observe the warning.",
   technique="bounded exhaustive input enumeration against a reference loader",
@@ -83,7 +83,7 @@ CHECKS = {
  "C05": dict(
   engine="sched",
   category="model_checking",
-  text="Same explorer on failure families: every non-empty fail subset of 3-step graphs (thorough: all edge kinds, 4-step graphs) x -k in {none,1,2,3} x {fail, fail after writing outputs, interrupt} x -j 1..3, every completion order, plus pools and curated shapes with one failing step. Monitors: no start downstream of a failed or interrupted step; no start after the k-th failure or after an interruption; below the budget every wanted step not downstream of a failure is up to date at the end (reference model on the harness's own file table); result is success iff no command failed; and a follow-up all-success invocation must run every failed step again (it was not recorded).",
+  text="Same explorer on failure families: every non-empty fail subset of 3-step graphs (thorough: all edge kinds, 4-step graphs) x -k in {none,1,2,3} x {fail, fail after writing outputs, interrupt} x -j 1..3, every completion order, plus pools, pooled steps with validation edges to failing steps, failing user commands next to an up-to-date or identically regenerated generator step, and curated shapes with one failing step. Monitors: no start downstream of a failed or interrupted step; no start after the k-th failure or after an interruption; below the budget every wanted step not downstream of a failure is up to date at the end (reference model on the harness's own file table); result is success iff no command failed; and a follow-up all-success invocation must run every failed step again (it was not recorded).",
   design_ref="DESIGN.md §4 C05",
   note="`no -k` is treated as an unlimited budget (what n2 does; --help claims default 1, see DESIGN.md O1). Exit status mapping of the binary itself is checked under C16/C18 (proc).",
   technique="stateless exhaustive exploration of completion orders and failure subsets under a gated executor, trace monitors plus reference model",
@@ -107,7 +107,7 @@ CHECKS = {
  "C19": dict(
   engine="sched",
   category="model_checking",
-  text="Same explorer with n2's Progress replaced by a recorder: at every Progress::update the state counts and the display's own total are compared with ground truth from the executor: total = number of non-phony steps of the reference wanted set of the phase (and = sum of the per-state counts), running = commands actually in flight, failed = failures so far, done/failed never decrease, done >= successes; task_started/task_finished pair up; the final `ran N` equals the number of successfully completed commands over both phases. What a terminal user would see is checked too: a real fancy-console state is fed behind the recorder and painted at every update, and the painted status line (`D/T done, F failed, R/Q running`, 40-column bar) must agree with the state counts and with the number of commands actually executing (steps carry hide_success / hide_progress).",
+  text="Same explorer with n2's Progress replaced by a recorder: at every Progress::update the state counts and the display's own total are compared with ground truth from the executor: total = number of non-phony steps of the reference wanted set of the phase (and = sum of the per-state counts), running = commands actually in flight, failed = failures so far, done/failed never decrease, done >= successes; task_started/task_finished pair up; the final `ran N` equals the number of successfully completed commands over both phases (also with 10-12 commands running at once). What a terminal user would see is checked too: a real fancy-console state is fed behind the recorder and painted at every update, and the painted status line (`D/T done, F failed, R/Q running`, 40-column bar) must agree with the state counts and with the number of commands actually executing (steps carry hide_success / hide_progress).",
   design_ref="DESIGN.md §4 C19, §14",
   note="The rendered text of the summary line is checked on the real binary by the proc jobs (once built).",
   technique="stateless exhaustive exploration under a gated executor, counters compared with executor ground truth at every update",
@@ -116,7 +116,7 @@ CHECKS = {
  "C02": dict(
   engine="hist",
   category="model_checking",
-  text="Exhaustive walk of the history tree: on a real directory tree with the real loader, log and scheduler (commands scripted), every history of depth 2 (thorough 3) over 8 project templates alternates an edit set (every single edit: touch each source/header, delete or touch each output/intermediate, delete a header, delete a declared source, change what a compiler reports, swap the manifest for each variant / let a generator write each variant; thorough: also compatible pairs in round one) and an invocation (default build, each single target, every completion order at -j2, a build with each failing command and -k1, n2 killed after 1-2 completions with fresh garbage left in the running commands' outputs, restat). After every successful invocation every wanted step must be clean in the reference model (an independent implementation of the manifest rule on the harness's own file table) and every output must carry the content tag a from-scratch topological evaluation of the current sources gives; failures must be reported for missing declared sources; after every invocation the log is audited through the loading facade: each step's remembered dependency list must be the one its last recorded run reported (also for every completion order of the all-orders invocation). Header sources live behind symbolic links. A conformance job (proc:conform) plays 83 two-invocation histories both under the scripted executor and through the shipped binary with real shell commands and requires identical run sets and exit status, binding the scripted executor to the real one.",
+  text="Exhaustive walk of the history tree: on a real directory tree with the real loader, log and scheduler (commands scripted), every history of depth 2 (thorough 3) over 8 project templates alternates an edit set (every single edit: touch each source/header, delete or touch each output/intermediate, delete a header, delete a declared source, change what a compiler reports, swap the manifest for each variant / let a generator write each variant; thorough: also compatible pairs in round one) and an invocation (default build, each single target, every completion order at -j2, a build with each failing command and -k1, n2 killed after 1-2 completions with fresh garbage left in the running commands' outputs, n2 dying while appending to the log (the last log write persists only its first half), restat). After every successful invocation every wanted step must be clean in the reference model (an independent implementation of the manifest rule on the harness's own file table) and every output must carry the content tag a from-scratch topological evaluation of the current sources gives; failures must be reported for missing declared sources; after every invocation the log is audited through the loading facade: each step's remembered dependency list must be the one its last recorded run reported (also for every completion order of the all-orders invocation). Header sources live behind symbolic links. A conformance job (proc:conform) plays 83 two-invocation histories both under the scripted executor and through the shipped binary with real shell commands and requires identical run sets and exit status, binding the scripted executor to the real one.",
   design_ref="DESIGN.md §3.2, §3.7, §4 C02",
   note="Assumptions are those of the property (mtime changes with content: logical clock; nothing else writes during a build; no phony aliases as dirtying inputs). Scripted compilers fail when a header they include does not exist; a remembered dependency on a generated file without an ordering path is n2's documented error and accepted as such.",
   technique="exhaustive bounded history exploration of the real implementation against a reference model (clean-build oracle)",
@@ -132,7 +132,7 @@ CHECKS = {
  "C07": dict(
   engine="crash",
   category="fault_enumeration",
-  text="Crash-point enumeration on the real log writer: a fault point before every write to .n2_db persists a chosen prefix and kills the invocation. For 8 histories (log creation, append to a loaded log, renumbering manifest edits, new path records, superseded records, -j2) the last build is repeated for every write index and every byte count 0..=len; afterwards the log is inspected through the facade (on a copy of its bytes: opening a log repairs it) (a step has a loaded record iff its record was persisted completely, with the written dependency list), a recovery invocation must run exactly what the reference model calls dirty and succeed with clean-build contents, and a third invocation must be a no-op; the same is demanded when the manifest is replaced by each other variant of the template between the crash and the next invocation (so that records - possibly the torn one - belong to steps that no longer exist), built, edited back and built again. Thorough adds a second crash at every write of the recovery invocation.",
+  text="Crash-point enumeration on the real log writer: a fault point before every write to .n2_db persists a chosen prefix and kills the invocation. For 9 histories (log creation, append to a loaded log, renumbering manifest edits, new path records, superseded records, -j2, a log longer than the reader's 8 KiB buffer with the crashing appends across the 8192-byte mark) the last build is repeated for every write index and every byte count 0..=len; afterwards the log is inspected through the facade (on a copy of its bytes: opening a log repairs it) (a step has a loaded record iff its record was persisted completely, with the written dependency list), a recovery invocation must run exactly what the reference model calls dirty and succeed with clean-build contents, and a third invocation must be a no-op; the same is demanded when the manifest is replaced by each other variant of the template between the crash and the next invocation (so that records - possibly the torn one - belong to steps that no longer exist), built, edited back and built again. Thorough adds a second crash at every write of the recovery invocation.",
   design_ref="DESIGN.md §3.3, §4 C07",
   note="Crash model: the tail of the write in progress is lost, earlier writes are intact (append-only file, no reordering across writes).",
   technique="exhaustive crash-point and torn-write enumeration with recovery checked against a reference model",
